@@ -227,6 +227,53 @@ def validateCost {κ : Type} (ctx0 : κ) (opName : String) (varsOk : Bool) (max 
   | .error (.panic w) => { verdict := .panicked w, actual := none }
   | .error .outOfFuel => { verdict := .outOfFuel, actual := none }
 
+/-! ### Connections with their default costs (pagination.go:226-235, 264-274, 434-442) -/
+
+/-- What `ctx.Arguments[name]` holds for an `Int` argument of a connection: the key is absent (the
+    argument was omitted, or given by a variable without a value, and has no default), present with
+    a nil value (explicit `null` literal or a null-valued variable), or present with an int. -/
+inductive ArgVal where
+  | absent
+  | null
+  | int (n : Int)
+  deriving Repr, DecidableEq
+
+/-- Go's `v, ok := ctx.Arguments[name].(int)`: only an int passes the assertion — a missing key and a
+    nil value both give `ok = false`. -/
+def ArgVal.asInt : ArgVal → Option Int
+  | .int n => some n
+  | _ => none
+
+/-- `defaultConnectionCost` (pagination.go:226-235), literally:
+    `maxCount, _ := Arguments["first"].(int); if last, ok := Arguments["last"].(int); ok { maxCount = last }`. -/
+def connMaxCount (first last : ArgVal) : Int :=
+  match last.asInt with
+  | some l => l
+  | none =>
+    match first.asInt with
+    | some f => f
+    | none => 0
+
+/-- `defaultConnectionCost`: resolver cost 1, the context carries the max edge count. -/
+def connectionCost (first last : ArgVal) : Int → FieldCost Int :=
+  fun _ => { ctx := some (connMaxCount first last), resolver := 1, multiplier := 0 }
+
+/-- The `edges` field (pagination.go:434-442): resolver cost 0, multiplier = the context's max edge count. -/
+def edgesCost : Int → FieldCost Int :=
+  fun k => { ctx := none, resolver := 0, multiplier := k }
+
+/-- The connection resolver's own reading of the arguments (pagination.go `ret.Resolve`, first lines):
+    the number of edges it may return (`limit - 1`), or `none` when it answers with an error (negative
+    count, both given as ints, neither given as an int) and returns no connection at all. A nil
+    `first` / `last` fails the `.(int)` assertion there exactly as a missing one does. -/
+def resolverEdgeLimit (first last : ArgVal) : Option Int :=
+  match first.asInt with
+  | some f => if f < 0 then none else match last.asInt with | some _ => none | none => some f
+  | none =>
+    match last.asInt with
+    | some l => if l < 0 then none else some l
+    | none => none
+
 /-- Whether `ParseAndValidate` returns no error for this rule. -/
 def Result.accepted (r : Result) : Bool := r.verdict == .accepted
 
